@@ -2116,4 +2116,409 @@ theorem redirDomains_col (c : Config) (P : Params) (π : Orders) (d : Name) (ham
     obtain ⟨i, hi⟩ := exists_indexed 0 hs
     exact ⟨(i, s), mem_pull.mpr hi, h2⟩
 
+
+
+/-! ### the repaired code: ranging over sorted keys leaves no runtime order behind -/
+
+theorem extract_none {κ α} [DecidableEq κ] {k : κ} : ∀ {m : List (κ × α)}, extract k m = none → ∀ kv ∈ m, kv.1 ≠ k
+  | [], _, _, h => by simp at h
+  | (k', w) :: rest, h, kv, hkv => by
+    unfold extract at h
+    split at h
+    · cases h
+    · rename_i hk
+      cases hh : extract k rest with
+      | some p => simp [hh] at h
+      | none =>
+        rcases List.mem_cons.mp hkv with rfl | h'
+        · exact hk
+        · exact extract_none hh kv h'
+
+theorem pull_nil {κ α} [DecidableEq κ] : ∀ (π : List κ), pull π ([] : List (κ × α)) = []
+  | [] => rfl
+  | _ :: ks => by simp [pull, extract, pull_nil ks]
+
+/-- a key list that names every key of a map with distinct keys fixes the iteration order -/
+theorem pull_append_of_complete {κ α} [DecidableEq κ] : ∀ (ks ρ : List κ) (m : List (κ × α)),
+    (m.map (·.1)).Nodup → (∀ kv ∈ m, kv.1 ∈ ks) → pull (ks ++ ρ) m = pull ks m
+  | [], ρ, m, _, hsub => by
+    cases m with
+    | nil => simp [pull_nil, pull]
+    | cons kv _ => exact absurd (hsub kv (by simp)) (by simp)
+  | k :: ks, ρ, m, hnd, hsub => by
+    simp only [List.cons_append, pull]
+    cases hx : extract k m with
+    | none =>
+      simp only
+      apply pull_append_of_complete ks ρ m hnd
+      intro kv hkv
+      rcases List.mem_cons.mp (hsub kv hkv) with h | h
+      · exact absurd h (extract_none hx kv hkv)
+      · exact h
+    | some p =>
+      obtain ⟨v, m'⟩ := p
+      simp only
+      have hp := extract_perm hx
+      have hnd' : (((k, v) :: m').map (·.1)).Nodup := (hp.map (·.1)).nodup_iff.mp hnd
+      simp only [List.map_cons, List.nodup_cons] at hnd'
+      rw [pull_append_of_complete ks ρ m' hnd'.2]
+      intro kv hkv
+      rcases List.mem_cons.mp (hsub kv (hp.mem_iff.mpr (List.mem_cons_of_mem _ hkv))) with h | h
+      · exfalso; apply hnd'.1; rw [← h]; exact List.mem_map.mpr ⟨kv, hkv, rfl⟩
+      · exact h
+
+theorem pullKeys_append_of_complete {κ} [DecidableEq κ] (ks ρ l : List κ) (hnd : l.Nodup) (hsub : ∀ k ∈ l, k ∈ ks) :
+    pullKeys (ks ++ ρ) l = pullKeys ks l := by
+  unfold pullKeys
+  rw [pull_append_of_complete]
+  · simpa [Function.comp_def] using hnd
+  · intro kv hkv
+    obtain ⟨k, hk, rfl⟩ := List.mem_map.mp hkv
+    exact hsub k hk
+
+/-- keys of an insertion-ordered map -/
+def keysOfMap {κ α} (m : List (κ × α)) : List κ := m.map (·.1)
+
+theorem keys_assocAppend {κ α} [DecidableEq κ] {k : κ} {v : α} : ∀ {m : List (κ × List α)},
+    keysOfMap (assocAppend m k v) = if hasKey m k then keysOfMap m else keysOfMap m ++ [k]
+  | [] => by simp [assocAppend, keysOfMap, hasKey]
+  | (k0, vs0) :: rest => by
+    unfold assocAppend
+    split
+    · rename_i hk; simp [keysOfMap, hasKey, hk]
+    · rename_i hk
+      have ih := @keys_assocAppend κ α _ k v rest
+      simp only [keysOfMap, List.map_cons, hasKey, List.any_cons, hk, decide_false, Bool.false_or] at ih ⊢
+      rw [ih]
+      split <;> rename_i h' <;> simp [h']
+
+theorem nodupKeys_assocAppend {κ α} [DecidableEq κ] {k : κ} {v : α} {m : List (κ × List α)}
+    (h : (keysOfMap m).Nodup) : (keysOfMap (assocAppend m k v)).Nodup := by
+  rw [keys_assocAppend]
+  split
+  · exact h
+  · rename_i hk
+    rw [List.nodup_append]
+    refine ⟨h, by simp, ?_⟩
+    intro a ha b hb
+    simp only [List.mem_singleton] at hb
+    subst hb
+    intro e; subst e
+    apply hk
+    obtain ⟨kv, hkv, rfl⟩ := List.mem_map.mp ha
+    exact hasKey_iff.mpr ⟨kv.2, hkv⟩
+
+theorem nodupKeys_foldl {κ α β} [DecidableEq κ] (f : List (κ × List α) → β → List (κ × List α))
+    (hf : ∀ m b, (keysOfMap m).Nodup → (keysOfMap (f m b)).Nodup) :
+    ∀ (l : List β) (m : List (κ × List α)), (keysOfMap m).Nodup → (keysOfMap (l.foldl f m)).Nodup
+  | [], _, h => h
+  | b :: l, m, h => by
+    simp only [List.foldl_cons]
+    exact nodupKeys_foldl f hf l _ (hf m b h)
+
+theorem nodupKeys_rdStepSrv (c : Config) (s : Server) (rd : RD) (h : (keysOfMap rd).Nodup) :
+    (keysOfMap (rdStepSrv c s rd)).Nodup := by
+  unfold rdStepSrv
+  apply nodupKeys_foldl _ _ _ _ h
+  intro m a hm
+  unfold rdStepAddr
+  split
+  · exact nodupKeys_assocAppend hm
+  · apply nodupKeys_foldl _ _ _ _ hm
+    intro m' d hm'
+    unfold rdStepDom
+    split
+    · exact nodupKeys_assocAppend hm'
+    · exact hm'
+
+theorem nodupKeys_mainLoop (c : Config) (P : Params) :
+    ∀ (l : List (Nat × Server)) (st : List Name × RD), (keysOfMap st.2).Nodup → (keysOfMap (l.foldl (mainStep c P) st).2).Nodup
+  | [], _, h => h
+  | ks :: l, st, h => by
+    simp only [List.foldl_cons]
+    apply nodupKeys_mainLoop c P l
+    unfold mainStep
+    split
+    · simp only
+      split
+      · exact h
+      · exact nodupKeys_rdStepSrv c _ _ h
+    · exact h
+
+theorem nodupKeys_domainsByAddr (π : Orders) (rd : RD) : (keysOfMap (domainsByAddr π rd)).Nodup := by
+  unfold domainsByAddr
+  apply nodupKeys_foldl _ _ _ _ (by simp [keysOfMap])
+  intro m da hm
+  unfold dbaStep
+  apply nodupKeys_foldl _ _ _ _ hm
+  intro m' a hm'
+  exact nodupKeys_assocAppend hm'
+
+theorem nodupKeys_redirServers (c : Config) (π : Orders) (dba : DBA) : (keysOfMap (redirServers c π dba)).Nodup := by
+  unfold redirServers
+  apply nodupKeys_foldl _ _ _ _ (by simp [keysOfMap])
+  intro m ad hm
+  exact nodupKeys_assocAppend hm
+
+/-- the sorted key lists name every key the maps of phase 1 can hold -/
+structure Complete (c : Config) (κ : Orders) : Prop where
+  srv : ∀ i, i < c.servers.length → i ∈ κ.srv
+  recv : ∀ R i, i < c.servers.length → i ∈ κ.recv R
+  uniq : ∀ d ∈ c.servers.flatMap allHosts, d ∈ κ.uniq
+  dom0 : 0 ∈ κ.dom
+  dom : ∀ d ∈ c.servers.flatMap allHosts, d ∈ κ.dom
+  addr : ∀ s ∈ c.servers, ∀ a ∈ s.listen, a ∈ κ.addr
+  raddr : ∀ s ∈ c.servers, ∀ a ∈ s.listen, redirAddr c a ∈ κ.raddr
+  laddr : ∀ s ∈ c.servers, ∀ a ∈ s.listen, redirAddr c a ∈ κ.laddr
+
+theorem indexed_key_lt {α} : ∀ {l : List α} {n i x}, (i, x) ∈ indexed l n → i < n + l.length
+  | [], _, _, _, h => by simp [indexed] at h
+  | y :: ys, n, i, x, h => by
+    simp only [indexed, List.mem_cons, Prod.mk.injEq] at h
+    rcases h with ⟨rfl, _⟩ | h
+    · simp
+    · have := indexed_key_lt h; simp only [List.length_cons]; omega
+
+theorem mainLoop_over (c : Config) (P : Params) (κ ρ : Orders) (h : Complete c κ) :
+    mainLoop c P (κ.over ρ) = mainLoop c P κ := by
+  unfold mainLoop Orders.over
+  simp only
+  rw [pull_append_of_complete _ _ _ (nodup_indexed_keys c.servers 0).1]
+  intro kv hkv
+  have := indexed_key_lt (i := kv.1) (x := kv.2) hkv
+  exact h.srv kv.1 (by omega)
+
+theorem mem_keysOf_allHosts {c : Config} {s : Server} {d : Name} (hs : s ∈ c.servers) (hd : d ∈ keysOf s) :
+    d = 0 ∨ d ∈ c.servers.flatMap allHosts := by
+  rcases mem_keysOf_cases.mp hd with ⟨_, h⟩ | ⟨_, h⟩
+  · exact Or.inl h
+  · exact Or.inr (List.mem_flatMap.mpr ⟨s, hs, (mem_domainSet.mp h).1⟩)
+
+theorem loopB_over (c : Config) (P : Params) (κ ρ : Orders) (h : Complete c κ) :
+    loopB P c.policies (κ.over ρ) (mainLoop c P κ).1 = loopB P c.policies κ (mainLoop c P κ).1 := by
+  unfold loopB Orders.over
+  simp only
+  rw [pullKeys_append_of_complete]
+  · unfold mainLoop; exact nodup_mainLoop_uniq c P List.nodup_nil
+  · intro d hd
+    exact h.uniq d (qualifies_mem ((mem_uniq_iff c P κ d).mp hd))
+
+theorem domainsByAddr_over (c : Config) (P : Params) (κ ρ : Orders) (h : Complete c κ) :
+    domainsByAddr (κ.over ρ) (mainLoop c P κ).2 = domainsByAddr κ (mainLoop c P κ).2 := by
+  unfold domainsByAddr Orders.over
+  simp only
+  have hne : NonEmptyVals (mainLoop c P κ).2 := by
+    unfold mainLoop; exact mainLoop_rd_nonEmpty c P (fun _ _ h => by simp at h)
+  rw [pull_append_of_complete]
+  · unfold mainLoop; exact nodupKeys_mainLoop c P _ _ (by simp [keysOfMap])
+  · intro kv hkv
+    obtain ⟨a, ha⟩ := assocMem_of_hasKey hne (hasKey_iff.mpr ⟨kv.2, hkv⟩)
+    unfold mainLoop at ha
+    rcases mainLoop_rd_sound c P ha with h' | ⟨ks, hks, _, hk, _⟩
+    · exact absurd h' assocMem_nil
+    · rcases mem_keysOf_allHosts (mem_indexed (mem_pull.mp hks)) hk with h0 | h0
+      · rw [h0]; exact h.dom0
+      · exact h.dom _ h0
+
+theorem dba_key_listen (c : Config) (P : Params) (π π' : Orders) {ad : Addr × List Name}
+    (hm : ad ∈ domainsByAddr π' (mainLoop c P π).2) : ∃ s ∈ c.servers, ad.1 ∈ s.listen := by
+  have hne := domainsByAddr_nonEmpty π' (mainLoop c P π).2 ad.1 ad.2 hm
+  cases hd : ad.2 with
+  | nil => exact absurd hd hne
+  | cons d _ =>
+    have : assocMem (mainLoop c P π).2 d ad.1 := mem_domainsByAddr.mp ⟨ad.2, hm, by rw [hd]; simp⟩
+    unfold mainLoop at this
+    rcases mainLoop_rd_sound c P this with h' | ⟨ks, hks, _, _, ha⟩
+    · exact absurd h' assocMem_nil
+    · exact ⟨ks.2, mem_indexed (mem_pull.mp hks), ha⟩
+
+theorem redirServers_over (c : Config) (P : Params) (κ ρ : Orders) (h : Complete c κ) :
+    redirServers c (κ.over ρ) (domainsByAddr κ (mainLoop c P κ).2) =
+      redirServers c κ (domainsByAddr κ (mainLoop c P κ).2) := by
+  unfold redirServers Orders.over
+  simp only
+  rw [pull_append_of_complete _ _ _ (nodupKeys_domainsByAddr κ _)]
+  intro kv hkv
+  obtain ⟨s, hs, ha⟩ := dba_key_listen c P κ κ hkv
+  exact h.addr s hs _ ha
+
+theorem rsOf_nonEmpty (c : Config) (P : Params) (π : Orders) : NonEmptyVals (rsOf c P π) := by
+  unfold rsOf redirServers
+  generalize pull π.addr _ = l
+  suffices ∀ (l : DBA) (m : RS), NonEmptyVals m → NonEmptyVals (l.foldl (rsStep c) m) from
+    this l [] (fun _ _ h => by simp at h)
+  intro l
+  induction l with
+  | nil => intro m h; exact h
+  | cons ad l ih => intro m h; exact ih _ (nonEmptyVals_append h)
+
+theorem rs_key_listen (c : Config) (P : Params) (π : Orders) {rr : Addr × List Route}
+    (hm : rr ∈ rsOf c P π) : ∃ s ∈ c.servers, ∃ a ∈ s.listen, rr.1 = redirAddr c a := by
+  have hne := rsOf_nonEmpty c P π rr.1 rr.2 hm
+  cases hr : rr.2 with
+  | nil => exact absurd hr hne
+  | cons rt _ =>
+    obtain ⟨a, doms, h1, _, h3, h4⟩ := rsOf_sound c P π (rt := rt) ⟨rr.2, hm, by rw [hr]; simp⟩
+    cases doms with
+    | nil => exact absurd rfl h3
+    | cons d _ =>
+      obtain ⟨s, hs, _, _, ha⟩ := h4 d (by simp)
+      exact ⟨s, hs, a, ha, h1⟩
+
+
+
+theorem stepF_keys (c : Config) (b : Bool) (π : Orders) (st : LoopF) (rr : Addr × List Route) :
+    keysOfMap (stepF c b π st rr).srvs = keysOfMap st.srvs := by
+  unfold stepF
+  split
+  · simp only [keysOfMap, List.map_map]
+    apply List.map_congr_left
+    intro kv _
+    simp only [Function.comp]
+    split <;> rfl
+  · rfl
+
+theorem initSrvs_keys_ok (c : Config) (κ : Orders) (h : Complete c κ) (R : Addr) (srvs : List (Nat × SrvOut))
+    (hk : keysOfMap srvs = keysOfMap (initSrvs c)) :
+    (srvs.map (·.1)).Nodup ∧ ∀ kv ∈ srvs, kv.1 ∈ κ.recv R := by
+  have hn := nodup_indexed_keys (c.servers.map (srvInit c)) 0
+  constructor
+  · have : srvs.map (·.1) = keysOfMap (initSrvs c) := hk
+    rw [this]; exact hn.1
+  · intro kv hkv
+    have : kv.1 ∈ keysOfMap (initSrvs c) := by rw [← hk]; exact List.mem_map.mpr ⟨kv, hkv, rfl⟩
+    obtain ⟨kv0, hkv0, he⟩ := List.mem_map.mp this
+    have hlt := indexed_key_lt (i := kv0.1) (x := kv0.2) hkv0
+    rw [← he]
+    exact h.recv R kv0.1 (by simpa using hlt)
+
+theorem stepF_over (c : Config) (b : Bool) (κ ρ : Orders) (h : Complete c κ) (st : LoopF) (rr : Addr × List Route)
+    (hk : keysOfMap st.srvs = keysOfMap (initSrvs c)) :
+    stepF c b (κ.over ρ) st rr = stepF c b κ st rr := by
+  obtain ⟨h1, h2⟩ := initSrvs_keys_ok c κ h rr.1 st.srvs hk
+  unfold stepF Orders.over
+  simp only
+  rw [pull_append_of_complete _ _ _ h1 h2]
+
+theorem foldF_over (c : Config) (b : Bool) (κ ρ : Orders) (h : Complete c κ) :
+    ∀ (l : RS) (st : LoopF), keysOfMap st.srvs = keysOfMap (initSrvs c) →
+      l.foldl (stepF c b (κ.over ρ)) st = l.foldl (stepF c b κ) st
+  | [], _, _ => rfl
+  | rr :: l, st, hk => by
+    simp only [List.foldl_cons]
+    rw [stepF_over c b κ ρ h st rr hk]
+    exact foldF_over c b κ ρ h l _ (by rw [stepF_keys]; exact hk)
+
+theorem loopF_over (c : Config) (P : Params) (b : Bool) (κ ρ : Orders) (h : Complete c κ) :
+    loopF c b (κ.over ρ) (rsOf c P κ) = loopF c b κ (rsOf c P κ) := by
+  unfold loopF
+  have : pull (κ.over ρ).raddr (rsOf c P κ) = pull κ.raddr (rsOf c P κ) := by
+    unfold Orders.over
+    simp only
+    rw [pull_append_of_complete _ _ _ (by unfold rsOf; exact nodupKeys_redirServers c κ _)]
+    intro kv hkv
+    obtain ⟨s, hs, a, ha, he⟩ := rs_key_listen c P κ hkv
+    rw [he]; exact h.raddr s hs a ha
+  rw [this]
+  exact foldF_over c b κ ρ h _ _ rfl
+
+theorem stepF_newAddrs (c : Config) (b : Bool) (π : Orders) (st : LoopF) (rr : Addr × List Route) :
+    (stepF c b π st rr).newAddrs = st.newAddrs ∨ (stepF c b π st rr).newAddrs = st.newAddrs ++ [rr.1] := by
+  unfold stepF
+  split
+  · exact Or.inl rfl
+  · exact Or.inr rfl
+
+theorem foldF_newAddrs (c : Config) (b : Bool) (π : Orders) :
+    ∀ (l : RS) (st : LoopF), (keysOfMap l).Nodup → st.newAddrs.Nodup → (∀ R ∈ st.newAddrs, R ∉ keysOfMap l) →
+      (l.foldl (stepF c b π) st).newAddrs.Nodup ∧
+      ∀ R ∈ (l.foldl (stepF c b π) st).newAddrs, R ∈ st.newAddrs ∨ R ∈ keysOfMap l
+  | [], _, _, h, _ => ⟨h, fun _ h' => Or.inl h'⟩
+  | rr :: l, st, hl, hn, hd => by
+    simp only [List.foldl_cons]
+    simp only [keysOfMap, List.map_cons, List.nodup_cons] at hl
+    have hstep : (stepF c b π st rr).newAddrs.Nodup ∧ (∀ R ∈ (stepF c b π st rr).newAddrs, R ∉ keysOfMap l) ∧
+        ∀ R ∈ (stepF c b π st rr).newAddrs, R ∈ st.newAddrs ∨ R = rr.1 := by
+      rcases stepF_newAddrs c b π st rr with e | e
+      · rw [e]
+        refine ⟨hn, ?_, fun R hR => Or.inl hR⟩
+        intro R hR hin
+        exact hd R hR (by simp only [keysOfMap, List.map_cons]; exact List.mem_cons_of_mem _ hin)
+      · rw [e]
+        refine ⟨?_, ?_, ?_⟩
+        · rw [List.nodup_append]
+          refine ⟨hn, by simp, ?_⟩
+          intro a ha b' hb
+          simp only [List.mem_singleton] at hb
+          subst hb
+          intro e'; subst e'
+          exact hd _ ha (by simp [keysOfMap])
+        · intro R hR hin
+          rcases List.mem_append.mp hR with h' | h'
+          · exact hd R h' (by simp only [keysOfMap, List.map_cons]; exact List.mem_cons_of_mem _ hin)
+          · simp only [List.mem_singleton] at h'
+            subst h'
+            exact hl.1 hin
+        · intro R hR
+          rcases List.mem_append.mp hR with h' | h'
+          · exact Or.inl h'
+          · exact Or.inr (by simpa using h')
+    obtain ⟨h1, h2⟩ := foldF_newAddrs c b π l _ hl.2 hstep.1 hstep.2.1
+    refine ⟨h1, ?_⟩
+    intro R hR
+    rcases h2 R hR with h' | h'
+    · rcases hstep.2.2 R h' with h'' | h''
+      · exact Or.inl h''
+      · exact Or.inr (by simp [keysOfMap, h''])
+    · exact Or.inr (by simp only [keysOfMap, List.map_cons]; exact List.mem_cons_of_mem _ h')
+
+theorem finalServers_over (c : Config) (P : Params) (b : Bool) (κ ρ : Orders) (h : Complete c κ) :
+    finalServers c (κ.over ρ) (loopF c b κ (rsOf c P κ)) = finalServers c κ (loopF c b κ (rsOf c P κ)) := by
+  have hperm := pull_perm κ.raddr (rsOf c P κ)
+  have hnd : (keysOfMap (pull κ.raddr (rsOf c P κ))).Nodup := by
+    have h0 : (keysOfMap (rsOf c P κ)).Nodup := by unfold rsOf; exact nodupKeys_redirServers c κ _
+    have hp : (keysOfMap (pull κ.raddr (rsOf c P κ))).Perm (keysOfMap (rsOf c P κ)) :=
+      hperm.map (fun x : Addr × List Route => x.1)
+    exact hp.nodup_iff.mpr h0
+  obtain ⟨h1, h2⟩ := foldF_newAddrs c b κ (pull κ.raddr (rsOf c P κ))
+    ⟨indexed (c.servers.map (srvInit c)) 0, [], []⟩ hnd List.nodup_nil (fun _ h' => by simp at h')
+  have hnew : newServer c (κ.over ρ) (loopF c b κ (rsOf c P κ)) = newServer c κ (loopF c b κ (rsOf c P κ)) := by
+    unfold newServer Orders.over
+    simp only
+    rw [pullKeys_append_of_complete _ _ _ (by unfold loopF; exact h1)]
+    intro R hR
+    have := h2 R (by unfold loopF at hR; exact hR)
+    rcases this with h' | h'
+    · simp at h'
+    · obtain ⟨kv, hkv, rfl⟩ := List.mem_map.mp h'
+      obtain ⟨s, hs, a, ha, he⟩ := rs_key_listen c P κ (mem_pull.mp hkv)
+      rw [he]; exact h.laddr s hs a ha
+  unfold finalServers
+  rw [hnew]
+
+theorem certsOf_over (c : Config) (P : Params) (κ ρ : Orders) (h : Complete c κ) :
+    certsOf c P (κ.over ρ) = certsOf c P κ := by
+  unfold certsOf
+  rw [mainLoop_over c P κ ρ h, loopB_over c P κ ρ h]
+
+theorem policiesOf_over (c : Config) (P : Params) (κ ρ : Orders) (h : Complete c κ) :
+    policiesOf c P (κ.over ρ) = policiesOf c P κ := by
+  unfold policiesOf
+  rw [mainLoop_over c P κ ρ h, loopB_over c P κ ρ h]
+
+theorem serversOf_over (c : Config) (P : Params) (κ ρ : Orders) (h : Complete c κ) :
+    serversOf c P (κ.over ρ) = serversOf c P κ := by
+  have hrs : redirServers c (κ.over ρ) (domainsByAddr (κ.over ρ) (mainLoop c P (κ.over ρ)).2) = rsOf c P κ := by
+    rw [mainLoop_over c P κ ρ h, domainsByAddr_over c P κ ρ h, redirServers_over c P κ ρ h]; rfl
+  unfold serversOf
+  rw [hrs, certsOf_over c P κ ρ h, loopF_over c P _ κ ρ h, finalServers_over c P _ κ ρ h]
+  rfl
+
+/-- **the repaired code leaves no runtime order behind**: when the sorted key lists `κ` name
+    every key, the outcome does not depend on the runtime order `ρ` of any map -/
+theorem phase1_over (c : Config) (P : Params) (κ ρ : Orders) (h : Complete c κ) :
+    phase1 c P (κ.over ρ) = phase1 c P κ := by
+  unfold phase1 phase1Result
+  rw [policiesOf_over c P κ ρ h, serversOf_over c P κ ρ h, certsOf_over c P κ ρ h]
+
 end CaddyModel.C11
